@@ -11,6 +11,7 @@ import (
 	"github.com/tetratelabs/wazero/verifharness/cfgreplay"
 	"github.com/tetratelabs/wazero/verifharness/fcache"
 	"github.com/tetratelabs/wazero/verifharness/isoreplay"
+	"github.com/tetratelabs/wazero/verifharness/lifecycle"
 	"github.com/tetratelabs/wazero/verifharness/linkreplay"
 	"github.com/tetratelabs/wazero/verifharness/memacc"
 	"github.com/tetratelabs/wazero/verifharness/memreplay"
@@ -48,6 +49,8 @@ var cmds = map[string]func([]string){
 	"termination-child":   termination.Child,
 	"run-cacheconf":       cacheconf.Main,
 	"cacheconf-child":     cacheconf.Child,
+	"replay-lifecycle":    lifecycle.Main,
+	"lifecycle-child":     lifecycle.Child,
 	"fc-child":            fcache.Child,
 	"fc-replay":           fcache.ReplayProc,
 	"fc-gate":             fcache.ReplayGate,
